@@ -143,7 +143,8 @@ def itoa_bytes(v):
 import re as _re
 _FS = _re.compile(r'^_ZNK?St1[34]basic_(fstream|ifstream|ofstream)IcSt11char_traitsIcEE(C[12]|D[012]|4open|5close|7is_open)E(.*)$')
 
-_RX = ('_ZNSt7__cxx1111basic_regexIcNS_12regex_traitsIcEEEC', '_ZNSt7__cxx1111basic_regexIcNS_12regex_traitsIcEEED', '_ZNSt8__detail17__regex_algo_impl')
+_RX = ('_ZNSt7__cxx1111basic_regexIcNS_12regex_traitsIcEEEC', '_ZNSt7__cxx1111basic_regexIcNS_12regex_traitsIcEEED', '_ZNSt8__detail17__regex_algo_impl',
+       '_ZNSt7__cxx1111basic_regexIcNS_12regex_traitsIcEEE10_M_compileEPKcS5_')
 def is_forced(name):
     return name.startswith(_RX) or name in FORCED or _FS.match(name) is not None or name.startswith('_ZNSt10filesystem7__cxx114pathC') or name.startswith('_ZNSt10filesystem7__cxx114pathD') \
         or name == '_ZN3Opm5EclIO11isFormattedERKNSt7__cxx1112basic_stringIcSt11char_traitsIcESaIcEEE'
@@ -541,6 +542,14 @@ def builtin(ex, st, fr, name, a, x, work):
             return bytes(out).decode('latin1')
         return 0 if _fn.fnmatchcase(_fn_cstr(a[1]), _fn_cstr(a[0])) else 1
     # ---------------- std::regex on concrete patterns and concrete subject strings: Python's re (ECMAScript subset: classes, groups, quantifiers)
+    if name.startswith('_ZNSt7__cxx1111basic_regexIcNS_12regex_traitsIcEEE10_M_compileEPKcS5_'):
+        S.add('std::regex(std::string) -> pattern kept as text (see std::regex_match)')
+        if a[1].obj != a[2].obj or not (isc(a[1].off) and isc(a[2].off)): raise Violation('unsupported', 'regex pattern range', st)
+        pat = [ex.load_val(st, Ptr(a[1].obj, i), I8) for i in range(a[1].off, a[2].off)]
+        if not all(isc(b) for b in pat): raise Violation('unsupported', 'std::regex with a symbolic pattern', st)
+        po = ex.new_obj(st, len(pat) + 1, 'regex-pattern', kind='zero')
+        for i, b in enumerate(pat): st.objs[po].cells[i] = (1, b)
+        ex.store_val(st, a[0], PTR(I8), Ptr(po, 0)); return 0
     if name.startswith('_ZNSt7__cxx1111basic_regexIcNS_12regex_traitsIcEEEC'):
         S.add('std::regex(const char*) -> pattern kept as text; std::regex_match/regex_search on concrete strings decided with the same pattern by Python re')
         if 'EPKc' not in name: raise Violation('unsupported', 'std::regex constructor ' + name, st)
